@@ -513,3 +513,61 @@ pub fn c05_eci_charset_bytes() -> Phase {
         wall_cap_s: 0,
     }
 }
+
+/// Long streams: output lengths and charset-span offsets placed around 2^8, 2^15, 2^16 and 2^17
+/// (narrow integer types, capacity estimates), for plain runs, runs between charset switches, macro bodies.
+pub fn c05_long_streams() -> Phase {
+    const TARGETS: [usize; 14] = [255, 256, 257, 32767, 32768, 32769, 65534, 65535, 65536, 65537, 65542, 131071, 131072, 131073];
+    const NSTRUCT: u64 = 6;
+    let total = TARGETS.len() as u64 * NSTRUCT * 2;
+    let make = move |_ctx: &Ctx, i: u64| -> Trace {
+        let digits = i % 2 == 1;
+        let r = i / 2;
+        let st = r % NSTRUCT;
+        let t = TARGETS[(r / NSTRUCT) as usize];
+        let per = if digits { 2 } else { 1 };
+        let unit: u8 = if digits { 142 } else { 0x42 };
+        let run = |bytes: usize, out: &mut Vec<u8>| {
+            for _ in 0..bytes / per {
+                out.push(unit);
+            }
+            if bytes % per == 1 {
+                out.push(0x42);
+            }
+        };
+        let mut data: Vec<u8> = Vec::new();
+        match st {
+            0 => run(t, &mut data),
+            1 => {
+                data.extend_from_slice(&[241, 27]);
+                run(t, &mut data);
+                data.extend_from_slice(&[241, 4, 0x42]);
+            }
+            2 => {
+                run(t / 3, &mut data);
+                data.extend_from_slice(&[241, 27]);
+                run(t - t / 3, &mut data);
+                data.extend_from_slice(&[241, 4, 0x42]);
+            }
+            3 => {
+                data.push(236);
+                run(t.saturating_sub(7), &mut data);
+            }
+            4 => {
+                data.extend_from_slice(&[237, 241, 27]);
+                run(t.saturating_sub(7), &mut data);
+                data.extend_from_slice(&[241, 4]);
+            }
+            _ => {
+                run(t, &mut data);
+                data.push(235);
+            }
+        }
+        Trace { prop: "C05".into(), producer: Producer::Stream { data }, faults: vec![] }
+    };
+    Phase {
+        source: Source::Sweep { name: "sweep_long_streams_around_powers_of_two".into(), prop: "C05".into(), make: Box::new(make) },
+        runs: total,
+        wall_cap_s: 0,
+    }
+}
